@@ -230,6 +230,14 @@ type c14Body struct {
 func c14Bodies() []c14Body {
 	return []c14Body{
 		{"tool text", "tool", `{"content":[{"type":"text","text":"hi"}]}`, false},
+		// sizes and characters at which a line- or token-oriented reader of one of the clients may give up or mangle
+		{"tool text 65537", "tool", `{"content":[{"type":"text","text":"` + strings.Repeat("z", 65537) + `"}]}`, false},
+		{"tool text 1MiB+1", "tool", `{"content":[{"type":"text","text":"` + strings.Repeat("z", 1<<20+1) + `"}]}`, false},
+		{"tool text percent", "tool", `{"content":[{"type":"text","text":"100% %d %s"}]}`, false},
+		{"tool text escapes", "tool", `{"content":[{"type":"text","text":"a\nb\r\nc\u2028d data: x"}]}`, false},
+		{"resource text 65537", "resource", `{"contents":[{"uri":"u","text":"` + strings.Repeat("r", 65537) + `"}]}`, false},
+		{"prompt text 65537", "prompt", `{"messages":[{"role":"user","content":{"type":"text","text":"` + strings.Repeat("p", 65537) + `"}}]}`, false},
+		{"tool error 65537", "tool", `{"code":-32000,"message":"` + strings.Repeat("e", 65537) + `"}`, true},
 		{"tool empty content", "tool", `{"content":[]}`, false},
 		{"tool no content member", "tool", `{}`, false},
 		{"tool content null", "tool", `{"content":null}`, false},
@@ -267,7 +275,7 @@ func c14Bodies() []c14Body {
 
 func c14ClientEval(tier string, i int) CaseResult {
 	b := c14Bodies()[i]
-	cr := CaseResult{Desc: "clients: " + b.Label + " :: " + b.Result, Nontrivial: true}
+	cr := CaseResult{Desc: "clients: " + b.Label + " :: " + truncate(b.Result, 160), Nontrivial: true}
 	outs := map[string]string{}
 	var viol []explore.Violation
 	for _, mode := range []string{"sj", "ss", "ls", "io"} {
